@@ -320,7 +320,18 @@ def validate_trace(module, events, workdir, chunk=400, timeout=1500, par=None, x
     par = par or max(1, JOBS)
     for i, e in enumerate(events):
         e["id"] = i
-    chunks = [events[i:i + chunk] for i in range(0, len(events), chunk)]
+    # a chunk never splits a session: new chunks start only at a "reset" event (if there are any)
+    if any(e.get("ev") == "reset" for e in events):
+        chunks, cur = [], []
+        for e in events:
+            if e.get("ev") == "reset" and len(cur) >= chunk:
+                chunks.append(cur)
+                cur = []
+            cur.append(e)
+        if cur:
+            chunks.append(cur)
+    else:
+        chunks = [events[i:i + chunk] for i in range(0, len(events), chunk)]
 
     def one(ci):
         path = os.path.join(workdir, "%s-%d.ndjson" % (module, ci))
